@@ -166,7 +166,6 @@ func init() {
 		Statement: "comparators of the sorts that establish the rendered order are strict total orders on distinct elements: the compared keys derive from the elements through injective steps only (no lossy string transform)"})
 }
 
-
 // comparatorAsymmetry: in a two-parameter comparator, every ordering comparison `ka OP kb` must
 // apply the same key function to both elements: the expression tree of one operand with the first
 // parameter abstracted must equal that of the other operand with the second parameter abstracted.
